@@ -6,7 +6,8 @@ from fractions import Fraction
 from harness.core import Rng, gz, gq, glist, gopt, gnat, Dec, num_close
 
 PID = "C14"
-VO = ["theories/Metrics/BaseRates.vo", "theories/Metrics/BaseRates_proofs.vo", "theories/Base/Flat.vo"]
+VO = ["theories/Metrics/BaseRates.vo", "theories/Metrics/BaseRates_proofs.vo", "theories/Metrics/BaseRatesSrc.vo",
+      "theories/Metrics/BaseRatesSrc_proofs.vo", "theories/Base/Flat.vo"]
 PROPS_FILES = ["props/C14.v"]
 TRANSLATORS = ["t_labels"]
 REQUIRES = ["From FL Require Import Num Flat BaseRates."]
@@ -19,11 +20,17 @@ LEVEL_TEXT = ("Proof (Coq): for the label function and the confusion-matrix unpa
               "rates equal the weighted ratios, lie in [0,1], TPR+FNR = 1 / TNR+FPR = 1 when the class is present and "
               "both are 0 otherwise, pos_label switch exchanges TPR<->TNR and FPR<->FNR, injective recodings change "
               "nothing (accepted iff accepted), {0,1} / {-1,1} default to pos_label 1, selection_rate / "
-              "mean_prediction / count equal their definitions. Tie to the code: translator t_labels (fail closed) + "
+              "mean_prediction / count equal their definitions; the bodies of all seven functions, regenerated as "
+              "source-shape terms (which arrays feed np.unique, the confusion_matrix call with sample_weight / labels / "
+              "normalize='true' / ravel and the returned cell; the statement trees of selection_rate and "
+              "mean_prediction; count's check_consistent_length + len), evaluate to the model functions "
+              "(C14_source_bodies). Tie to the code: translator t_labels (fail closed) + "
               "exhaustive differential run of the model against the seven functions over all label/prediction vectors "
               "up to length 3 (quick) / 5 (thorough) in four encodings, every pos_label, unweighted and weighted, "
               "plus rejected inputs; observables: value, scalar-ness, exception or not.")
-LEVEL_NOTE = ("Trusted: Coq kernel + vm_compute; translator t_labels (Python ast -> Gallina decision term); sklearn "
+LEVEL_NOTE = ("Trusted: Coq kernel + vm_compute; translator t_labels (Python ast -> Gallina decision term and body "
+              "terms; their interpretation BaseRatesSrc.eval_rate / eval_stm / eval_count; "
+              "_convert_to_ndarray_and_squeeze = identity on 1-D data); sklearn "
               "confusion_matrix(labels, sample_weight, normalize='true') and numpy dot / unique are modelled, not "
               "verified (weights >= 0); scalar-ness of the returned object is checked by the correspondence run only.")
 TECHNIQUE = "Coq proofs on the source-regenerated label function + exhaustive differential model/implementation run"
